@@ -1005,3 +1005,372 @@ def _patched_afterwards(f, df: DataFlow, at: int, division: ast.AST) -> bool:
                 n.id for a in c.args for n in ast.walk(a) if isinstance(n, ast.Name)}:
             return True
     return False
+
+
+# ---- added after the seeded change C23-r6seed1: the angular grid is computed from the state of the waves
+_inner_run_c23f = run
+
+_KERNEL = "_evaluate_from_angular_grid"
+
+
+def run(ctx) -> None:  # noqa: F811
+    from ..rules import deferred
+
+    ctx.rule("R-ENERGYMATCH", "the angular grid a transfer function is evaluated on belongs to the waves it is applied to. "
+             "The slots of the component objects (Accelerator.energy; Grid.gpts / sampling / extent) that the computation "
+             "of alpha and the kernels transitively read are derived from the code (properties followed through the "
+             "MRO and into the components).  In the method of BaseTransferFunction that evaluates the kernel for given "
+             "waves (the one calling self._evaluate_from_angular_grid), (1) on every path on which waves are given, a "
+             "synchroniser call (`<component>.match(<waves>)`, directly or through a delegating method) covering each "
+             "such slot is executed before the statement that computes alpha (path-sensitive forward analysis; a branch "
+             "on `waves is None` needs none); (2) the synchroniser establishes its post-condition: executed on the "
+             "typestate receiver-slot unset/set x argument-slot unset/set x equal/different (sa/rules/syncmatch.py, all "
+             "slots jointly, options as bound at the call site), every normally returning path leaves both objects with "
+             "the same value whenever at least one was set — a path on which both are set, differ, and nothing is "
+             "assigned or raised leaves a transfer function that was used before with its old energy: the cutoff in "
+             "mrad is converted with the wrong wavelength and the aperture blocks angles inside / passes angles beyond "
+             "its cutoff; (3) composed with the roles at the call site, the value both hold after a mismatch is the "
+             "waves' one (the transfer function follows the waves, never the reverse)")
+    ctx.assume("the waves object exposes its accelerator / grid under the same component names and classes as the "
+               "transfer function (shared mixins HasAcceleratorMixin / HasGrid2DMixin); the coupled adjustments inside "
+               "the Grid setters are not modelled by R-ENERGYMATCH (C17)")
+    deferred.run(ctx, lambda: _energymatch(ctx), _inner_run_c23f)
+
+
+def _none_facts(test: ast.AST, label: str, params: set) -> list:
+    """[(param, is None?)] established by leaving `test` along the edge `label` ('T' / 'F')"""
+    out = []
+    if isinstance(test, ast.BoolOp):
+        if isinstance(test.op, ast.And) and label == "T" or isinstance(test.op, ast.Or) and label == "F":
+            for v in test.values:
+                out += _none_facts(v, label, params)
+        return out
+    if isinstance(test, ast.UnaryOp) and isinstance(test.op, ast.Not):
+        return _none_facts(test.operand, "F" if label == "T" else "T", params)
+    if isinstance(test, ast.Name) and test.id in params:
+        return [(test.id, label == "F")]
+    if isinstance(test, ast.Compare) and len(test.ops) == 1 and isinstance(test.ops[0], (ast.Is, ast.IsNot, ast.Eq, ast.NotEq)):
+        a, b = test.left, test.comparators[0]
+        for x, y in ((a, b), (b, a)):
+            if isinstance(x, ast.Name) and x.id in params and isinstance(y, ast.Constant) and y.value is None:
+                positive = isinstance(test.ops[0], (ast.Is, ast.Eq))
+                return [(x.id, positive == (label == "T"))]
+    return out
+
+
+def _node_exprs(df: DataFlow):
+    """(node idx, expression root) for the statement and test nodes of a function"""
+    for node in df.cfg.nodes:
+        st = node.ast
+        if st is None:
+            continue
+        if node.kind == "test" and isinstance(st, ast.If):
+            yield node.idx, st.test
+        elif node.kind == "stmt" and not isinstance(st, (ast.FunctionDef, ast.ClassDef, ast.AsyncFunctionDef)):
+            yield node.idx, st
+        elif node.kind in ("loop", "with"):
+            raise AnalysisError("R-ENERGYMATCH: loops / with blocks in the kernel evaluation are not modelled")
+
+
+def _sync_calls(repo, base, fn, tf_param: str, depth: int = 0):
+    """Synchroniser calls between the transfer function (`tf_param`) and another parameter of `fn`.
+    -> (records, opaque): records are dicts node / method / interp / tf_is ('recv'|'peer') / wroots / flags / call."""
+    from ..rules import syncmatch as sm
+
+    if depth > 2:
+        raise AnalysisError(f"{fn.qualname}: delegation of the synchronisation is too deep")
+    df = DataFlow(fn.node)
+    params = set(fn.params)
+    recs, opaque = [], []
+
+    def roots(at, e):
+        return set(df.backward_slice(at, e).params)
+
+    def resolved(at, e):
+        for _ in range(10):
+            if isinstance(e, ast.Name):
+                d = df.single_def(at, e.id)
+                if d is not None and d.kind == "assign" and d.value is not None and isinstance(
+                        df.cfg.nodes[d.node].ast, ast.Assign) and not isinstance(
+                        df.cfg.nodes[d.node].ast.targets[0], (ast.Tuple, ast.List)):
+                    e, at = d.value, d.node
+                    continue
+            break
+        return e
+
+    def flag_value(at, e, env):
+        e = resolved(at, e)
+        if isinstance(e, ast.Constant) and isinstance(e.value, bool):
+            return e.value
+        if isinstance(e, ast.Name) and e.id in params and df.single_def(at, e.id) is not None and \
+                df.single_def(at, e.id).kind == "param":
+            return ("param", e.id)
+        raise AnalysisError(f"{fn.qualname}: cannot fold the option `{norm_text(e)[:40]}` of a synchroniser call")
+
+    for at, root in _node_exprs(df):
+        for c in walk_no_nested(root):
+            if not (isinstance(c, ast.Call) and isinstance(c.func, ast.Attribute)):
+                continue
+            cargs = [a for a in c.args if not isinstance(a, ast.Starred)] + [k.value for k in c.keywords if k.arg]
+            if not cargs:
+                continue
+            rr = roots(at, c.func.value)
+            tf_args = [a for a in cargs if roots(at, a) == {tf_param}]
+            w_args = [a for a in cargs if roots(at, a) and tf_param not in roots(at, a)]
+            if rr == {tf_param} and w_args:
+                tf_is, wroots = "recv", set().union(*[roots(at, a) for a in w_args])
+            elif rr and tf_param not in rr and tf_args:
+                tf_is, wroots = "peer", set(rr)
+            else:
+                continue
+            rexpr = resolved(at, c.func.value)
+            text = norm_text(c)[:60]
+            if isinstance(rexpr, ast.Name):
+                # a method of the object itself: follow one level of delegation (shared mixin methods)
+                g = base.find_method(c.func.attr)
+                if g is None or g.is_abstract or g.has_vararg or g.has_varkw or not g.positional_params:
+                    opaque.append((at, text))
+                    continue
+                bound = bind_args(c, g, skip_self=True)
+                g_self = g.positional_params[0]
+                if tf_is == "recv":
+                    g_tf = g_self
+                else:
+                    cand = [p for p, a in bound.items() if roots(at, a) == {tf_param}]
+                    if len(cand) != 1:
+                        opaque.append((at, text))
+                        continue
+                    g_tf = cand[0]
+                inner, inner_opaque = _sync_calls(repo, base, g, g_tf, depth + 1)
+                if inner_opaque or not inner:
+                    # a callee that stores attributes might synchronise in a way that is not recognised
+                    if inner_opaque or any(isinstance(s, ast.Attribute) and isinstance(s.ctx, ast.Store)
+                                           for s in ast.walk(g.node)):
+                        opaque.append((at, text))
+                    continue
+                for r in inner:
+                    wr = set()
+                    for q in r["wroots"]:
+                        if q == g_self:
+                            wr |= rr
+                        elif q in bound:
+                            wr |= roots(at, bound[q])
+                    flags = {}
+                    for k, v in r["flags"].items():
+                        if isinstance(v, tuple):
+                            if v[1] in bound:
+                                v = flag_value(at, bound[v[1]], None)
+                            elif isinstance(g.defaults().get(v[1]), ast.Constant) and isinstance(
+                                    g.defaults()[v[1]].value, bool):
+                                v = g.defaults()[v[1]].value
+                            else:
+                                raise AnalysisError(f"{g.qualname}: option `{v[1]}` of the synchroniser is not bound")
+                        flags[k] = v
+                    if wr and tf_param not in wr:
+                        recs.append(dict(r, node=at, wroots=wr, flags=flags, call=c, via=g.qualname))
+                continue
+            comp = None
+            for e in [rexpr] + [resolved(at, a) for a in cargs]:
+                if isinstance(e, ast.Attribute):
+                    comp = sm.component_class(repo, base, e.attr)
+                    if comp is not None:
+                        break
+            if comp is None:
+                opaque.append((at, text))
+                continue
+            m = comp.find_method(c.func.attr)
+            if m is None:
+                opaque.append((at, text))
+                continue
+            try:
+                it = sm.SyncInterp(m)
+            except AnalysisError:
+                opaque.append((at, text))
+                continue
+            if it.n_store_sites == 0:
+                continue  # a comparison of the two objects (check_match), not a synchroniser
+            flags = {}
+            for p, a in bind_args(c, m, skip_self=True).items():
+                if p in it.flag_defaults:
+                    flags[p] = flag_value(at, a, None)
+            recs.append(dict(node=at, method=m, interp=it, comp=comp, tf_is=tf_is, wroots=wroots, flags=flags, call=c,
+                             via=None))
+    return recs, opaque
+
+
+def _energymatch(ctx) -> None:
+    from ..cfg import forward_states
+    from ..model import ClassInfo
+    from ..rules import syncmatch as sm
+
+    repo = ctx.repo
+    base = repo.cls(MOD, "BaseTransferFunction")
+    own = {c.qualname for c in base.mro()}
+    # slots of the transfer functions themselves (cutoffs, spreads, the CTF's component transfer functions) are
+    # parameters of the kernel, not state shared with the waves
+    tf_classes = own | {c.qualname for c in repo.all_classes() if base in c.mro()}
+    entries = []
+    for defs in base.methods.values():
+        for f in defs:
+            if f.is_abstract or not f.positional_params:
+                continue
+            sn = f.positional_params[0]
+            if any(isinstance(c, ast.Call) and isinstance(c.func, ast.Attribute) and c.func.attr == _KERNEL
+                   and dotted(c.func.value) == sn for c in walk_no_nested(f.node)):
+                entries.append(f)
+    ctx.require(bool(entries), f"{base.qualname}: no method evaluates {_KERNEL} on the object itself")
+    # state the concrete kernels read (self.wavelength, self.angular_sampling ...)
+    kernel_reads = set()
+    for c in repo.modules[MOD].classes.values():
+        if isinstance(c, ClassInfo) and base in c.mro():
+            k = c.own_method(_KERNEL)
+            if k is not None and not k.is_abstract:
+                kernel_reads |= {s for s in sm.state_reads(repo, c, _KERNEL) if s[0] not in tf_classes}
+    n_slots = 0
+    for f in entries:
+        sn = f.positional_params[0]
+        df = DataFlow(f.node)
+        cfg = df.cfg
+        node_expr = dict(_node_exprs(df))
+        # ---- consumers: the statements the angular grid handed to the kernel is computed in, and the kernel call
+        consumers: dict[int, set] = {}
+        role_of: dict[int, str] = {}
+        for at, root in node_expr.items():
+            for c in walk_no_nested(root):
+                if isinstance(c, ast.Call) and isinstance(c.func, ast.Attribute) and c.func.attr == _KERNEL and \
+                        dotted(c.func.value) == sn:
+                    grid_args = ast.Tuple(elts=list(c.args) + [k.value for k in c.keywords], ctx=ast.Load())
+                    here = {s for s in sm.expr_reads(repo, base, grid_args, sn) if s[0] not in own} | kernel_reads
+                    consumers.setdefault(at, set()).update(here)
+                    role_of[at] = "kernel"
+                    for m in df.backward_slice(at, grid_args).def_nodes:
+                        if m in node_expr:
+                            got = {s for s in sm.expr_reads(repo, base, node_expr[m], sn) if s[0] not in own}
+                            if got:
+                                consumers.setdefault(m, set()).update(got)
+                                role_of.setdefault(m, "angular-grid")
+        needed = set().union(*consumers.values()) if consumers else set()
+        ctx.require(bool(needed), f"{f.qualname}: the angular grid reads no component state (energy / grid)")
+
+        recs, opaque = _sync_calls(repo, base, f, sn)
+        applied = set().union(*[r["wroots"] for r in recs]) if recs else set()
+        if not applied:
+            for n in walk_no_nested(f.node):
+                if isinstance(n, ast.Attribute) and isinstance(n.value, ast.Name) and n.value.id in f.params and \
+                        n.value.id != sn:
+                    applied.add(n.value.id)
+        ctx.require(bool(applied), f"{f.qualname}: no parameter stands for the waves the kernel is evaluated for")
+
+        # ---- (2) + (3): post-condition and direction of every synchroniser called
+        decided = {}
+        for r in recs:
+            m, key = r["method"], (r["method"].qualname, tuple(sorted(r["flags"].items())), r["tf_is"])
+            if key in decided:
+                continue
+            decided[key] = verdicts = sm.decide(m, r["flags"])
+            for slot, v in sorted(verdicts.items()):
+                if (r["comp"].qualname, slot) not in needed:
+                    continue
+                n_slots += 1
+                bad = v.broken[0] if v.broken else None
+                ctx.check(bad is None, "R-ENERGYMATCH", f"{m.qualname}:{slot}:post-condition", m.where,
+                          f"{v.n_paths} scenario(s): both objects hold the same {slot} after the call whenever one was set"
+                          + (" (a mismatch raises)" if v.ne_raises else ""),
+                          (f"{m.short} called from {f.short} does not synchronise `{slot}` — {sm.describe(*bad)}: a "
+                           f"transfer function whose {slot} was set by an earlier use keeps it when it is applied to "
+                           f"waves with another {slot}, and the angular grid (alpha = k * wavelength, the pixel size of "
+                           "the soft edge) is computed for the wrong waves: the aperture is not 1 up to / 0 beyond its "
+                           "cutoff in the angles of the waves it multiplies") if bad else "",
+                          key_detail=f"{slot}-{bad[0] if bad else ''}")
+                if v.ne_raises or not v.winner:
+                    continue
+                want = "b" if r["tf_is"] == "recv" else "a"
+                role = {"a": "receiver", "b": "argument"}
+                ctx.check(v.winner == {want}, "R-ENERGYMATCH", f"{f.qualname}:{r['comp'].name}.{slot}:follows-waves",
+                          f.loc(r["call"]),
+                          f"after a mismatch both hold the {role[want]}'s {slot}, and the {role[want]} of "
+                          f"`{norm_text(r['call'])[:50]}` is the waves",
+                          f"`{norm_text(r['call'])[:50]}`: when both objects have a {slot} and they differ, {m.short} "
+                          f"keeps the {' / '.join(role[w] for w in sorted(v.winner))}'s value, which here is the transfer "
+                          f"function's: the waves are re-labelled with the {slot} of the transfer function instead of the "
+                          "kernel being evaluated for the waves", key_detail=f"direction-{slot}")
+
+        # ---- (1) every needed slot is synchronised with the waves before it is read
+        effects: dict[int, set] = {}
+        for r in recs:
+            for p in r["wroots"]:
+                for slot in r["interp"].fields:
+                    effects.setdefault(r["node"], set()).add((p, r["comp"].qualname, slot))
+        params = set(f.params)
+
+        def transfer(node, st, label, succ):
+            synced, facts = st
+            if node.idx in effects:
+                synced = synced | frozenset(effects[node.idx])
+            if node.kind == "test" and label in ("T", "F") and isinstance(node.ast, ast.If):
+                new = _none_facts(node.ast.test, label, params)
+                for p, isnone in new:
+                    if (p, not isnone) in facts:
+                        return None
+                facts = facts | frozenset(new)
+            return (synced, facts)
+
+        states = forward_states(cfg, (frozenset(), frozenset()), transfer, max_states=256)
+        for at in sorted(consumers):
+            for cq, slot in sorted(consumers[at]):
+                missing = []
+                for synced, facts in states[at]:
+                    for p in sorted(applied):
+                        if (p, True) in facts:
+                            continue
+                        if (p, cq, slot) not in synced:
+                            missing.append(p)
+                n_slots += 1
+                cname = cq.split(".")[-1]
+                construct = f"{f.qualname}:{cname}.{slot}:synchronised-before-{role_of[at]}"
+                if missing and opaque:
+                    raise AnalysisError(f"{f.qualname}: `{opaque[0][1]}` involves the transfer function and the waves "
+                                        "and cannot be resolved to a synchroniser")
+                if missing and not any(r["comp"].qualname == cq and slot in r["interp"].fields for r in recs):
+                    _presynced_by_callers(repo, f, cq, slot)
+                stmt = cfg.nodes[at].ast
+                ctx.check(not missing, "R-ENERGYMATCH", construct, f.loc(stmt),
+                          f"on every path with {', '.join(sorted(applied))} given, {cname}.{slot} is synchronised with "
+                          f"it before `{norm_text(node_expr[at])[:50]}`",
+                          f"a path on which `{missing[0] if missing else ''}` is given reaches "
+                          f"`{norm_text(node_expr[at])[:60]}`, which reads {cname}.{slot}, without a preceding "
+                          f"synchronisation of the transfer function's {cname.lower()} with it: the angular grid is "
+                          "computed from whatever the transfer function held before, not for the waves the kernel "
+                          "multiplies", key_detail=f"unsynced-{slot}")
+    ctx.require(n_slots >= 3, f"R-ENERGYMATCH examined only {n_slots} slot(s)")
+
+
+def _presynced_by_callers(repo, f, cq: str, slot: str) -> None:
+    """The entry does not synchronise the slot at all.  If every caller that hands it waves calls a synchroniser of the
+    component itself, the synchronisation was moved, which this rule cannot follow: AnalysisError."""
+    from ..rules import syncmatch as sm
+
+    comp = next((c for c in repo.all_classes() if c.qualname == cq), None)
+    names = set()
+    if comp is not None:
+        for name, defs in comp.methods.items():
+            for m in defs:
+                try:
+                    it = sm.SyncInterp(m)
+                except AnalysisError:
+                    continue
+                if slot in it.fields and it.n_store_sites:
+                    names.add(name)
+    callers = []
+    for g in repo.all_functions():
+        if g.node is f.node:
+            continue
+        for c in walk_no_nested(g.node):
+            if isinstance(c, ast.Call) and isinstance(c.func, ast.Attribute) and c.func.attr == f.name and (
+                    c.args or c.keywords):
+                callers.append(g)
+                break
+    if callers and names and all(any(isinstance(c, ast.Call) and isinstance(c.func, ast.Attribute) and c.func.attr in names
+                                     for c in walk_no_nested(g.node)) for g in callers):
+        raise AnalysisError(f"{f.qualname}: `{slot}` is not synchronised here but every caller calls "
+                            f"{sorted(names)}: synchronisation moved to the callers, not followed")
